@@ -9,6 +9,19 @@ import XC.Model.C05
 namespace XC.C06
 open XC.C05 Variant
 
+def setBytes (b : Bytes) (off : Nat) (v : Bytes) : Bytes := copyAt b off v
+
+def le32n (n : Nat) : Bytes := natToLE 4 n
+def le16n (n : Nat) : Bytes := natToLE 2 n
+
+/-- the parameter block `x.cfg`, represented by the two fields the code ever changes after Reset:
+    `cfg[0]` (digest length; set to `remaining` for the last, short node) and `cfg[8:12]` (node offset,
+    written with PutUint32, i.e. truncated to 32 bits like the uint32 counter it is copied from) -/
+structure Cfg where
+  dlen : Nat
+  nodeOff : Nat
+deriving DecidableEq, Repr
+
 /-- what the two XOFs differ in -/
 structure XAlg where
   A : Alg
@@ -18,24 +31,20 @@ structure XAlg where
   unknown : Nat
   /-- maxOutputLength -/
   maxOut : Nat
-  /-- the parameter block after Reset: digest length, leaf length, xof length, inner length -/
-  cfg0 : Nat → Bytes
+  /-- the parameter block `cfg` as bytes: digest length, leaf length, node offset, xof length, inner length -/
+  cfgBytes : Nat → Cfg → Bytes
   /-- `x.d.h[1] ^= uint64(x.length) << 32` (2b) / `x.d.h[3] ^= uint32(x.length)` (2s) -/
   rootTweak : A.H → Nat → A.H
   /-- `initConfig`: `h[i] = iv[i] ^ LE(cfg[i*w:])` -/
   cfgH : Bytes → A.H
-
-def setBytes (b : Bytes) (off : Nat) (v : Bytes) : Bytes := copyAt b off v
-
-def le32n (n : Nat) : Bytes := natToLE 4 n
-def le16n (n : Nat) : Bytes := natToLE 2 n
 
 def XB : XAlg where
   A := B
   size := 64
   unknown := 4294967295
   maxOut := 4294967296 * 64
-  cfg0 len := setBytes (setBytes (setBytes (setBytes (zeros 64) 0 [64]) 4 (le32n 64)) 12 (le32n len)) 17 [64]
+  cfgBytes len c := setBytes (setBytes (setBytes (setBytes (setBytes (zeros 64) 0 [UInt8.ofNat c.dlen]) 4 (le32n 64)) 8
+    (le32n c.nodeOff)) 12 (le32n len)) 17 [64]
   rootTweak h len := { h with a1 := h.a1 ^^^ (UInt64.ofNat len <<< 32) }
   cfgH cfg := (ivH UInt64).xor (H8.read (ofLE : Bytes → UInt64) 8 cfg)
 
@@ -44,7 +53,8 @@ def XS : XAlg where
   size := 32
   unknown := 65535
   maxOut := 4294967296 * 32
-  cfg0 len := setBytes (setBytes (setBytes (setBytes (zeros 32) 0 [32]) 4 (le32n 32)) 12 (le16n len)) 15 [32]
+  cfgBytes len c := setBytes (setBytes (setBytes (setBytes (setBytes (zeros 32) 0 [UInt8.ofNat c.dlen]) 4 (le32n 32)) 8
+    (le32n c.nodeOff)) 12 (le16n len)) 15 [32]
   rootTweak h len := { h with a3 := h.a3 ^^^ UInt32.ofNat len }
   cfgH cfg := (ivH UInt32).xor (H8.read (ofLE : Bytes → UInt32) 4 cfg)
 
@@ -52,10 +62,12 @@ structure Xof (X : XAlg) where
   d : Digest X.A
   length : Nat
   remaining : Nat
-  cfg : Bytes
+  cfg : Cfg
   root : Bytes
   block : Bytes
   offset : Nat
+  /-- a uint32 in the code; only ever copied into the parameter block with PutUint32, which truncates like the
+      counter wraps, so the model keeps the untruncated count -/
   nodeOffset : Nat
   readMode : Bool
 
@@ -64,7 +76,7 @@ variable {X : XAlg}
 def Xof.reset (x : Xof X) : Xof X :=
   let d := x.d.reset
   let d := { d with h := X.rootTweak d.h x.length }
-  { x with cfg := X.cfg0 x.length, d := d,
+  { x with cfg := ⟨X.size, 0⟩, d := d,
            remaining := if x.length = X.unknown then X.maxOut else x.length,
            offset := 0, nodeOffset := 0, readMode := false }
 
@@ -81,7 +93,7 @@ def newXOF (X : XAlg) (size : Nat) (key : Bytes) : Except NewErr (Xof X) :=
     let size := if size = 0 then X.unknown else size
     let d : Digest X.A := { h := X.A.init 0 0, c := X.A.cof 0, size := X.size, block := zeros X.A.bs, offset := 0,
                             key := copyAt (zeros X.A.bs) 0 key, keyLen := key.length }
-    let x : Xof X := { d := d, length := size, remaining := 0, cfg := zeros X.size, root := zeros X.size,
+    let x : Xof X := { d := d, length := size, remaining := 0, cfg := ⟨0, 0⟩, root := zeros X.size,
                        block := zeros X.size, offset := 0, nodeOffset := 0, readMode := false }
     .ok x.reset
 
@@ -90,8 +102,8 @@ def Xof.write (x : Xof X) (p : Bytes) : Option (Xof X) :=
   if x.readMode then none else some { x with d := x.d.write p }
 
 /-- one output node: `initConfig(&cfg); d.Write(root); d.finalize(&block)` -/
-def nodeHash (X : XAlg) (d : Digest X.A) (cfg root : Bytes) : Digest X.A × Bytes :=
-  let d := { d with offset := 0, c := X.A.cof 0, h := X.cfgH cfg }
+def nodeHash (X : XAlg) (len : Nat) (d : Digest X.A) (cfg : Cfg) (root : Bytes) : Digest X.A × Bytes :=
+  let d := { d with offset := 0, c := X.A.cof 0, h := X.cfgH (X.cfgBytes len cfg) }
   let d := d.write root
   (d, X.A.out d.finalize)
 
@@ -100,9 +112,9 @@ def nodeHash (X : XAlg) (d : Digest X.A) (cfg root : Bytes) : Digest X.A × Byte
 def fullNodes (X : XAlg) (keep : Bool) : Nat → Xof X → Bytes → Xof X × Bytes
   | 0, x, acc => (x, acc)
   | k+1, x, acc =>
-    let cfg := setBytes x.cfg 8 (le32n x.nodeOffset)
-    let (d, blk) := nodeHash X x.d cfg x.root
-    fullNodes X keep k { x with cfg := cfg, nodeOffset := (x.nodeOffset + 1) % 4294967296, d := d, block := blk,
+    let cfg := { x.cfg with nodeOff := x.nodeOffset }
+    let (d, blk) := nodeHash X x.length x.d cfg x.root
+    fullNodes X keep k { x with cfg := cfg, nodeOffset := x.nodeOffset + 1, d := d, block := blk,
                                 remaining := x.remaining - X.size } (if keep then acc ++ blk else acc)
 
 /-- first statement of Read: the first Read finalizes the root hash -/
@@ -111,10 +123,10 @@ def Xof.enterRead (x : Xof X) : Xof X :=
 
 /-- phase 3: a node that is only partly consumed (`0 < todo < Size`) stays in `block` -/
 def Xof.partialNode (x : Xof X) (keep : Bool) (todo : Nat) (acc : Bytes) : Xof X × Bytes :=
-  let cfg := if x.remaining < X.size then setBytes x.cfg 0 [UInt8.ofNat x.remaining] else x.cfg
-  let cfg := setBytes cfg 8 (le32n x.nodeOffset)
-  let (d, blk) := nodeHash X x.d cfg x.root
-  ({ x with cfg := cfg, nodeOffset := (x.nodeOffset + 1) % 4294967296, d := d, block := blk,
+  let cfg := if x.remaining < X.size then { x.cfg with dlen := x.remaining } else x.cfg
+  let cfg := { cfg with nodeOff := x.nodeOffset }
+  let (d, blk) := nodeHash X x.length x.d cfg x.root
+  ({ x with cfg := cfg, nodeOffset := x.nodeOffset + 1, d := d, block := blk,
             offset := todo, remaining := x.remaining - todo }, if keep then acc ++ blk.take todo else acc)
 
 /-- phases 2 and 3 (the buffered node is exhausted, `x.offset = 0`): `n` more bytes -/
@@ -157,29 +169,23 @@ def rootHash (X : XAlg) (length : Nat) (key msg : Bytes) : Bytes :=
   let data := (if key.isEmpty then [] else key ++ zeros (X.A.bs - key.length)) ++ msg
   X.A.out (specLoop X.A (X.rootTweak (X.A.init X.size key.length) length) 0 data)
 
-/-- parameter block of output node `i` with digest length `dl` -/
-def nodeCfg (X : XAlg) (length i dl : Nat) : Bytes :=
-  setBytes (setBytes (X.cfg0 length) 0 [UInt8.ofNat dl]) 8 (le32n i)
+/-- output node `i` with digest length `dl`: BLAKE2 with the node's parameter block (node offset `i`, digest
+    length `dl`, xof length) over H0 — one block, final — all `Size` bytes; the construction keeps the first `dl` -/
+def nodeFull (X : XAlg) (length : Nat) (h0 : Bytes) (i dl : Nat) : Bytes :=
+  X.A.out (specLoop X.A (X.cfgH (X.cfgBytes length ⟨dl, i⟩)) 0 h0)
 
-/-- output node `i`: BLAKE2 with that parameter block over H0 (one block, final), all `Size` bytes;
-    the construction keeps the first `dl` of them -/
-def nodeOut (X : XAlg) (length : Nat) (h0 : Bytes) (i : Nat) : Bytes :=
-  let ol := outLen X length
-  let dl := min X.size (ol - i * X.size)
-  (X.A.out (specLoop X.A (X.cfgH (nodeCfg X length i dl)) 0 h0)).take dl
+/-- the BLAKE2X output from node `i` on when `rem` bytes are still to be produced: node `i` contributes
+    `min(Size, rem)` bytes (so only the last node is short, with its own digest length in the parameter block) -/
+def nodesFrom (X : XAlg) (length : Nat) (h0 : Bytes) (i rem : Nat) : Bytes :=
+  if _h : rem = 0 ∨ X.size = 0 then []
+  else
+    (nodeFull X length h0 i (min X.size rem)).take (min X.size rem) ++
+      nodesFrom X length h0 (i + 1) (rem - min X.size rem)
+termination_by rem
+decreasing_by omega
 
-/-- the first `n` bytes of the BLAKE2X output stream (n ≤ outLen), starting at byte position `pos` -/
-def streamFrom (X : XAlg) (length : Nat) (h0 : Bytes) : Nat → Nat → Nat → Bytes
-  | 0, _, _ => []
-  | fuel+1, pos, n =>
-    if n = 0 then [] else
-    let i := pos / X.size
-    let node := nodeOut X length h0 i
-    let piece := (node.drop (pos % X.size)).take n
-    if piece.isEmpty then [] else piece ++ streamFrom X length h0 fuel (pos + piece.length) (n - piece.length)
-
-def blake2xSpec (X : XAlg) (length : Nat) (key msg : Bytes) (pos n : Nat) : Bytes :=
-  let n := min n (outLen X length - pos)
-  streamFrom X length (rootHash X length key msg) (n + 1) pos n
+/-- the whole BLAKE2X output for a declared length (OutputLengthUnknown: 2^32 nodes) -/
+def blake2xSpec (X : XAlg) (length : Nat) (key msg : Bytes) : Bytes :=
+  nodesFrom X length (rootHash X length key msg) 0 (outLen X length)
 
 end XC.C06
